@@ -4,6 +4,9 @@ from rrlib import q_wire, py_query, ints, ilist
 
 PROP = "C11"
 TRUSTED = [
+    "rrulebase._iter_cached and _invalidate_cache are TRANSLATED from the source on every run (harness/translate_rrbase.py -> Generated/RRBaseCache.lean: one node per "
+    "pause-point statement with its control flow; C11.program_sim: same step as Cache.stepIter at every pc on every state; cache.trun runs the translated program "
+    "against the real generators); __iter__'s dispatch and the consumers are hand-modelled",
     "Model/Cache.lean mirrors rrulebase.__iter__/_iter_cached (rrule.py 105-149) one transition per source line; tied on every run by "
     "cache.run (statement-granularity thread schedules on the real generators via sys.settrace + an instrumented lock substituted for "
     "rule._cache_lock) and cache.nexts (next()-granularity): the line trace of every step, the blocked set, the final cache/flags and every "
@@ -176,8 +179,16 @@ def corr_threads(ctx, rng, runs):
         if e != g:
             ctx.mismatch("cache.run", {"rule": m[0], "n": m[1], "qs": [list(q) for q in m[2]], "segs": [list(s) for s in m[3]]},
                          first_diff(e, g), first_diff(g, e))
-    ctx.traces += len(reqs)
+    # the same schedules with the statements of `_iter_cached` executed by the program TRANSLATED from the source
+    # (Gen.iterCachedProgram, CachePy.stepProg): validation of the translation against the real generators
+    got_t = ctx.driver(["cache.trun" + r[len("cache.run"):] for r in reqs])
+    for r, e, g, m in zip(reqs, exp, got_t, meta):
+        if e != g:
+            ctx.mismatch("cache.trun", {"rule": m[0], "n": m[1], "qs": [list(q) for q in m[2]], "segs": [list(s) for s in m[3]]},
+                         first_diff(e, g), first_diff(g, e))
+    ctx.traces += 2 * len(reqs)
     ctx.count("corr_thread_schedules", len(reqs))
+    ctx.count("corr_thread_schedules_translated_program", len(reqs))
 
 
 def first_diff(a, b):
